@@ -76,34 +76,34 @@ func round(s *slip.Scope, f slip.Object, args slip.List, depth int) slip.Values 
 		if q, r = fixnumQuoOverflow(tn, d); q != nil {
 			break
 		}
-		q = tn / d
-		r = tn - q.(slip.Fixnum)*d
-		if r == slip.Fixnum(0) {
-			break
-		}
-		ns := tn < slip.Fixnum(0)
-		if ns {
-			tn = -tn
-		}
-		ds := d < slip.Fixnum(0)
-		if ds {
-			d = -d
-		}
-		q = tn / d
-		r = tn - q.(slip.Fixnum)*d
-		dif := r.(slip.Fixnum) * 2
-		if dif == d && q.(slip.Fixnum)%2 != 0 {
-			q = q.(slip.Fixnum) + 1
-			r = tn - q.(slip.Fixnum)*d
-		}
-		if ns {
-			r = -r.(slip.Fixnum)
-			if !ds {
-				q = -q.(slip.Fixnum)
+		qf := tn / d
+		rf := tn % d
+		if rf != 0 {
+			// Compare the remainder to the rest of the divisor instead of
+			// twice the remainder to the divisor to avoid an overflow. With
+			// 0 < |rf| < |d| neither negation nor the differences overflow.
+			ar := rf
+			if rf < 0 {
+				ar = -rf
 			}
-		} else if ds {
-			q = -q.(slip.Fixnum)
+			rest := d - ar
+			if d < 0 {
+				rest = -(d + ar)
+			}
+			if rest < ar || (rest == ar && qf%2 != 0) {
+				// Move the quotient away from zero, to the nearest integer
+				// or to the even one on a tie.
+				if (rf < 0) == (d < 0) {
+					qf++
+					rf -= d
+				} else {
+					qf--
+					rf += d
+				}
+			}
 		}
+		q = qf
+		r = rf
 	case slip.SingleFloat:
 		q = tn / div.(slip.SingleFloat)
 		q = slip.Fixnum(math.RoundToEven(float64(q.(slip.SingleFloat))))
